@@ -132,6 +132,41 @@ func TestVerifVBThresholds(t *testing.T) {
 			pr, _ := getCommitConsensus(msgs, c, n)
 			return pr == 1
 		})
+		// --- getCommitConsensus, k-1 commit messages for the EMPTY block (the function modifies its C once more than C
+		// empty commits were seen, so its threshold must be probed on this shape too)
+		emit("getCommitConsensus/empty", func(k int) bool {
+			var msgs []*blockCommitMsg
+			for i := 2; i <= k; i++ {
+				m := vbPlainCommit(i, nil)
+				m.CommitForEmpty = true
+				msgs = append(msgs, m)
+			}
+			pr, _ := getCommitConsensus(msgs, c, n)
+			return pr == 1
+		})
+		// --- the same with one commit message carrying the endorser signatures, preceded by C+1 empty commits of peers
+		// that are part of the k signers
+		emit("getCommitConsensus/emptyThenClaims", func(k int) bool {
+			var msgs []*blockCommitMsg
+			nEmpty := c + 1
+			if nEmpty > k-1 {
+				nEmpty = k - 1
+			}
+			for i := 2; i < 2+nEmpty; i++ {
+				m := vbPlainCommit(i, nil)
+				m.CommitForEmpty = true
+				msgs = append(msgs, m)
+			}
+			if 2+nEmpty <= k {
+				ends := []int{}
+				for e := 2 + nEmpty + 1; e <= k; e++ {
+					ends = append(ends, e)
+				}
+				msgs = append(msgs, vbPlainCommit(2+nEmpty, ends))
+			}
+			pr, _ := getCommitConsensus(msgs, c, n)
+			return pr == 1
+		})
 		// --- pool level: one net + one server skeleton (peer n) per N; C and the participant roles are re-installed per pair
 		net := netCache[n]
 		if net == nil {
